@@ -666,6 +666,78 @@ func c04Pair(op []string) string {
 		sretA, atretA, strings.Join(a.results, ","), finalA, sretB, atretB, strings.Join(b.results, ","), finalB, leak)
 }
 
+// c04HoldRec: a real writer whose first WriteHeader (the timeout branch's) waits for the harness: the window in which the
+// timeout response is being written is held open.
+type c04HoldRec struct {
+	*httptest.ResponseRecorder
+	once     sync.Once
+	inBranch chan struct{}
+	resume   chan struct{}
+}
+
+func (h *c04HoldRec) WriteHeader(code int) {
+	h.once.Do(func() {
+		close(h.inBranch)
+		<-h.resume
+	})
+	h.ResponseRecorder.WriteHeader(code)
+}
+
+// tbw <kind> <act>: the handler performs <act> WHILE the timeout branch is writing its response (the real writer holds
+// the branch inside WriteHeader).  The branch holds tw.mu: a Write / WriteHeader / Flush must wait and then see timedOut.
+//   => during=<blocked|res> after=<res> final=<view>
+func c04Tbw(op []string) string {
+	kind, act := op[1], op[2]
+	parent := newC04Ctx()
+	gate := make(chan struct{})
+	ack := make(chan string, 1)
+	inner := http.HandlerFunc(func(w http.ResponseWriter, r *http.Request) {
+		<-gate
+		ack <- c04Do(w, act)
+	})
+	th := TimeoutHandler(time.Hour)(inner)
+	hr := &c04HoldRec{ResponseRecorder: httptest.NewRecorder(), inBranch: make(chan struct{}), resume: make(chan struct{})}
+	sdone := make(chan string, 1)
+	go func() {
+		defer func() {
+			if p := recover(); p != nil {
+				sdone <- c04PanicTok(p)
+				return
+			}
+			sdone <- "done"
+		}()
+		th.ServeHTTP(hr, c04Request("plain", parent))
+	}()
+	if kind == "cancel" {
+		parent.fire(context.Canceled)
+	} else {
+		parent.fire(context.DeadlineExceeded)
+	}
+	select {
+	case <-hr.inBranch:
+	case <-time.After(c04StuckBound()):
+		close(gate)
+		return "during=no-timeout-branch after=? final=" + c04View(hr.ResponseRecorder)
+	}
+	close(gate)
+	during, after := "blocked", ""
+	select {
+	case res := <-ack:
+		during, after = res, res
+	case <-time.After(40 * time.Millisecond):
+	}
+	close(hr.resume)
+	c04WaitS(sdone, c04StuckBound(), "stuck")
+	if after == "" {
+		select {
+		case after = <-ack:
+		case <-time.After(c04StuckBound()):
+			after = "stuck"
+		}
+	}
+	return fmt.Sprintf("during=%s after=%s final=%s", during, after, c04View(hr.ResponseRecorder))
+}
+
 func c04Script(r *verifh.Rng, flush bool) []string {
 	n := r.Pick(0, 1, 2, 3, 3, 4, 5, 6)
 	var acts []string
@@ -812,6 +884,14 @@ func c04Gen(r *verifh.Rng) []verifh.Section {
 		}
 	}
 	secs = append(secs, verifh.Section{Cfg: "wrapper=rest mode=hijack", Ops: ops})
+	// the work acts while the timeout response is being written
+	ops = nil
+	for _, kind := range []string{"deadline", "cancel"} {
+		for _, act := range []string{"w:ab", "c:404", "f", "h:1:5", "w:"} {
+			ops = append(ops, fmt.Sprintf("tbw %s %s", kind, act))
+		}
+	}
+	secs = append(secs, verifh.Section{Cfg: "wrapper=rest mode=timeout-branch-window", Ops: ops})
 	// two requests in flight together: nothing of one may show up in the other
 	npair := verifh.Scale(3, 30)
 	for i := 0; i < npair; i++ {
@@ -852,6 +932,8 @@ func TestVerifC04Rest(t *testing.T) {
 				return c04Hijack(op)
 			case "pair":
 				return c04Pair(op)
+			case "tbw":
+				return c04Tbw(op)
 			}
 			return "bad-op"
 		}
